@@ -79,7 +79,7 @@ package jid
 
 // Accessors agree with one another.
 //@ func (JID).Bare
-//@   ensures[C11] result.locallen == j.locallen && result.domainlen == j.domainlen && len(result.data) == j.locallen + j.domainlen
+//@   ensures[C11,C08] result.locallen == j.locallen && result.domainlen == j.domainlen && len(result.data) == j.locallen + j.domainlen
 //@   ensures[C11] forall k int :: 0 <= k && k < len(result.data) ==> result.data[k] == j.data[k]
 
 //@ func (JID).Domain
